@@ -171,6 +171,18 @@ pub struct IndexerHandle {
     timeout_limit: Duration,
 }
 
+#[cfg(ckb_verif)]
+impl IndexerHandle {
+    pub(crate) fn verif_new(store: RocksdbStore) -> Self {
+        IndexerHandle {
+            store,
+            pool: None,
+            request_limit: usize::MAX,
+            timeout_limit: Duration::from_secs(600),
+        }
+    }
+}
+
 impl IndexerHandle {
     /// Get indexer current tip
     pub fn get_indexer_tip(&self) -> Result<Option<IndexerTip>, Error> {
